@@ -1,10 +1,8 @@
 #!/bin/sh
 # re-verify every stored seeded change against the current /repo HEAD (quick tier of its property's check)
+# usage: tools/seedall.sh [parallel jobs, default 3]
 cd "$(dirname "$0")/.."
 mkdir -p .work
-for d in seeded/C*; do
-  id=$(basename $d)
-  python3 tools/seedcheck.py $id 2>&1 | tail -2 | tr '\n' ' '
-  echo
-done
+J=${1:-3}
+ls -d seeded/C* | xargs -n1 basename | xargs -P "$J" -I{} sh -c 'python3 tools/seedcheck.py {} 2>&1 | tail -2 | tr "\n" " "; echo'
 python3 tools/seedreadme.py
